@@ -1157,6 +1157,13 @@ func (x *Exec) convert(in *ssa.Convert, st *State) Value {
 			return ToReal(v)
 		case fb.Info()&types.IsFloat != 0 && tb.Info()&types.IsInteger != 0:
 			r := app(SInt, "trunc", v)
+			if !x.pure && x.fc != nil && x.fc.Opts["overflow"] != "" {
+				// a float outside the target range converts to an implementation-specific value (on
+				// amd64 the minimum integer): in functions that opted into machine arithmetic the
+				// operand must be in range
+				tlo, thi := intRange(tb)
+				x.obl("safety[convert-range]", "safety", "float converted to "+tb.Name()+" is within its range", st, And(Ge(r, IntLitStr(tlo)), Le(r, IntLitStr(thi))))
+			}
 			return r
 		case fb.Info()&types.IsFloat != 0 && tb.Info()&types.IsFloat != 0:
 			return v
